@@ -64,7 +64,8 @@ def gen(ctx, seed, tier):
     thorough = tier == "thorough"
     M = 1 << 20
     sizes = [0, 1, 100, 16383, 16384, 16385, 16384 + 64, 16384 + 4096 + 64, 65536, 100000, 131072, 1000000, M,
-             8 * M - 1, 8 * M, 8 * M + 1, 16 * M, 32 * M, 32 * M + 64, 2**32, 2**40]
+             8 * M - 1, 8 * M, 8 * M + 1, 16 * M, 32 * M, 32 * M + 64, 2**32, 2**40,
+             2**63, 2**63 + 1, 2**64 - 8192, 2**64 - 4096, 2**64 - 4095, 2**64 - 100, 2**64 - 2, 2**64 - 1]
     creates = [0, 0, 0] + MAPPED + [4, 35, 75, 131, 3, 9]
     cases = []
     for size in sizes + [r.randrange(1, 64 * M) for _ in range(40 if thorough else 10)]:
